@@ -4,14 +4,14 @@ EXTENDS Helmert
 Z3 == <<0, 0, 0>>
 \* parameter pools (metres, m/yr, arcsec, arcsec/yr, ppm, ppm/yr)
 TsQ  == {Z3, <<3, -5, 7>>}
-DTsQ == {Z3, <<0, -2, 3>>}
+DTsQ == {Z3, <<0, -2, 3>>, <<1, 0, 0>>}     \* every component non-zero somewhere (a mutant ignoring dx survived without)
 RsQ  == {Z3, <<2, -3, 5>>}
 DRsQ == {Z3, <<1, 2, -1>>}
 SsQ  == {0, 7}
 DSsQ == {0, 2}
 
 TsT  == TsQ  \cup {<<4, 0, -6>>}
-DTsT == DTsQ \cup {<<1, 0, 0>>}
+DTsT == DTsQ \cup {<<-1, 2, 0>>}
 RsT  == RsQ  \cup {<<0, 0, 4>>}
 DRsT == DRsQ
 SsT  == SsQ \cup {-3}
